@@ -229,8 +229,22 @@ func (c markedCodec) Omit(p unsafe.Pointer) bool {
 	return (c.omit || c.nullable) && c.def.isZero(p)
 }
 
+// c20SchemaFirst: whether the next registration calls RegisterSchema before
+// Register (both orders are legitimate; the library's own packages use codec first).
+var c20SchemaFirst bool
+
 func c20Register(ti, j int, nullable bool) {
 	def := customDefs[ti]
+	regSchema := func() {
+		lib := avro.Schema{Type: def.wireKind()}
+		if nullable {
+			lib = avro.Schema{Type: "union", Union: []avro.Schema{{Type: "null"}, {Type: def.wireKind()}}}
+		}
+		avro.RegisterSchema(def.typ, lib)
+	}
+	if c20SchemaFirst {
+		regSchema()
+	}
 	avro.Register(def.typ, func(s avro.Schema, typ reflect.Type, omit bool) (avro.Codec, error) {
 		if s.Type != def.wireKind() {
 			return nil, fmt.Errorf("custom type %s needs a %s schema, not %q", def.kind, def.wireKind(), s.Type)
@@ -244,7 +258,10 @@ func c20Register(ti, j int, nullable bool) {
 		lib = avro.Schema{Type: "union", Union: []avro.Schema{{Type: "null"}, {Type: def.wireKind()}}}
 		model = ref.Nullable(model)
 	}
-	avro.RegisterSchema(def.typ, lib)
+	_ = lib
+	if !c20SchemaFirst {
+		regSchema()
+	}
 	c20State[def.kind] = &regState{builder: j, nullable: nullable}
 	spec.Custom[def.kind].Schema = model
 }
@@ -341,6 +358,8 @@ type c20Op struct {
 	// checked: the most recent registration wins in both directions.
 	LibCycle string `json:"lib_cycle,omitempty"`
 	Register bool   `json:"register,omitempty"`
+	// SchemaFirst: RegisterSchema is called before Register for this registration.
+	SchemaFirst bool `json:"schema_first,omitempty"`
 	Type     int    `json:"type,omitempty"`
 	Builder  int    `json:"builder,omitempty"`
 	Nullable bool   `json:"nullable,omitempty"`
@@ -389,7 +408,9 @@ func runC20(c c20Case) (bool, []string, error) {
 			continue
 		}
 		if op.Register {
+			c20SchemaFirst = op.SchemaFirst
 			c20Register(op.Type%len(customDefs), op.Builder%2, op.Nullable)
+			c20SchemaFirst = false
 			reRegistered = true
 			continue
 		}
@@ -583,7 +604,7 @@ func drawC20(t *rapid.T) c20Case {
 			continue
 		}
 		if gen.Uniform(t, "op", 3) == 0 {
-			c.Ops = append(c.Ops, c20Op{Register: true, Type: gen.Uniform(t, "type", 6), Builder: gen.Uniform(t, "builder", 2), Nullable: rapid.Bool().Draw(t, "nullable")})
+			c.Ops = append(c.Ops, c20Op{Register: true, Type: gen.Uniform(t, "type", 6), Builder: gen.Uniform(t, "builder", 2), Nullable: rapid.Bool().Draw(t, "nullable"), SchemaFirst: rapid.Bool().Draw(t, "schemaFirst")})
 			continue
 		}
 		ts := gen.StructType(t, gen.TypeOpts{MaxDepth: 3, MaxFields: 4, Leaves: leaves}, 1)
